@@ -266,9 +266,10 @@ def run(tier: str, replay: str | None = None):
             occ = seen_count.get(pname, 0)
             seen_count[pname] = occ + 1
             if diags != base[pname]:
-                fid = attribute_known(base[pname], diags, cfg_by_name[cname][3], kf)
-                if fid:
-                    rep.known(fid, next(f["what"] for f in kf if f["id"] == fid))
+                fids = attribute_known(base[pname], diags, cfg_by_name[cname][3], kf)
+                if fids:
+                    for fid in fids:
+                        rep.known(fid, next(f["what"] for f in kf if f["id"] == fid))
                     known_hits.append((pname, cname))
                 else:
                     differing.append((pname, cname, occ, first_difference(base[pname], diags)))
@@ -380,40 +381,45 @@ def run(tier: str, replay: str | None = None):
 
 
 def attribute_known(base, observed, shared_checker, findings):
-    """Known finding C10-protocol-positive-cache-key: with ONE Checker shared by several checks an
-    `incompatible_*` diagnostic that rests on a protocol member disappears (the positive cache of
-    the protocol's TypeObject is keyed by the source value only, so a success recorded for
-    Proto[A] is replayed for Proto[B]).  Attributed only if the configuration shares a Checker and
-    the observed diagnostics are exactly the reference minus such diagnostics -- what the keyed-memo
-    model predicts (C10_keyed_memo_needs_determining_key); anything else is a violation."""
+    """Attribute a difference from the isolated reference to the known findings of the unchanged
+    tree; returns the list of finding ids that explain it completely, or [] (= a violation).
+
+    C10-typed-value-str-slot: TypedValue.__str__ prints the TypeObject (suffix
+      " (Protocol with members ...)") only when the memo slot _type_object of that shared TypedValue
+      was filled by an earlier assignability check: texts differ by exactly such suffixes.
+    C10-protocol-positive-cache-key: an `incompatible_*` diagnostic that rests on a protocol member
+      disappears (a success recorded for Proto[A] is replayed for Proto[B]): the observed diagnostics
+      are the reference minus such diagnostics (what C10_keyed_memo_needs_determining_key predicts).
+    Both only under ONE Checker shared by several checks; the two effects may occur together."""
     ids = {f["id"] for f in findings}
     if not shared_checker or not isinstance(base, list) or not isinstance(observed, list):
-        return None
-    # Known finding C10-typed-value-str-slot: TypedValue.__str__ prints the TypeObject (with the
-    # suffix " (Protocol with members ...)") only when the memo slot _type_object of that shared
-    # TypedValue has been filled by an earlier assignability check -- the text of a later diagnostic
-    # then differs by exactly such suffixes.  Attributed only under a shared Checker and when the two
-    # renderings are equal after deleting these suffixes.
-    if "C10-typed-value-str-slot" in ids and len(base) == len(observed):
+        return []
+    used = []
+    b, o = base, observed
+    if "C10-typed-value-str-slot" in ids:
         strip = lambda ds: [[d[0], d[1], d[2], re.sub(r" \(Protocol with members [^)]*\)", "", d[3])] for d in ds]  # noqa: E731
-        if strip(base) == strip(observed):
-            return "C10-typed-value-str-slot"
-    if "C10-protocol-positive-cache-key" not in ids:
-        return None
-    if not isinstance(base, list) or not isinstance(observed, list) or len(observed) >= len(base):
-        return None
+        sb, so = strip(b), strip(o)
+        if sb == so and b != o:
+            return ["C10-typed-value-str-slot"]
+        if sb != b or so != o:
+            used.append("C10-typed-value-str-slot")   # suffixes occur; the rest must be explained below
+        b, o = sb, so
+    if b == o:
+        return used
+    if "C10-protocol-positive-cache-key" not in ids or len(o) >= len(b):
+        return []
     removed, j = [], 0
-    for d in base:
-        if j < len(observed) and observed[j] == d:
+    for d in b:
+        if j < len(o) and o[j] == d:
             j += 1
         else:
             removed.append(d)
-    if j != len(observed) or not removed:
-        return None
+    if j != len(o) or not removed:
+        return []
     for d in removed:
         if d[0] not in ("incompatible_argument", "incompatible_assignment", "incompatible_return_value") or "protocol member" not in d[3]:
-            return None
-    return "C10-protocol-positive-cache-key"
+            return []
+    return used + ["C10-protocol-positive-cache-key"]
 
 
 def unclassified_sites_hint(gen_text):
